@@ -3,7 +3,7 @@ Per rule: all sequences over (rule names + one foreign name) up to a length boun
 random words of the language and their single mutations (longer sequences); both
 modes; oracle = declarative language membership (harness/lang.py)."""
 import itertools
-import impl, gen, lang, automaton
+import impl, gen, lang, automaton, synth
 from metapype.model.node import Node
 from metapype.eml import rule as rulemod, validate
 
@@ -12,6 +12,7 @@ TRUSTED = ["element names are compared as Python str",
            "sequences beyond the enumerated lengths are covered by the Lean theorem and by sampled words/mutations only"]
 FOREIGN = "zzForeign"
 WSTATS = {}
+LONG = {}
 
 
 def max_len(a, tier):
@@ -65,6 +66,85 @@ def sequences(ri, rn, ctx):
                 yield c
 
 
+def unbounded_sites(s):
+    """number of unbounded (max = None) leaves / choices in the spec, in walk order"""
+    if s[0] == "leaf":
+        return 1 if s[3] is None else 0
+    if s[0] == "seq":
+        return sum(unbounded_sites(i) for i in s[1])
+    return (1 if s[3] is None else 0) + sum(unbounded_sites(a) for a in s[1])
+
+
+def pumped(s, rng, site, target, ctr):
+    """a word of the language in which the `site`-th unbounded element is repeated `target` times (others minimal-ish)"""
+    if s[0] == "leaf":
+        _, n, mn, mx = s
+        if mx is None:
+            me = ctr[0]; ctr[0] += 1
+            if me == site:
+                return [n] * max(mn, target)
+        return [n] * mn
+    if s[0] == "seq":
+        out = []
+        for it in s[1]:
+            w = pumped(it, rng, site, target, ctr)
+            if w is None:
+                return None
+            out += w
+        return out
+    _, alts, mn, mx = s
+    k = mn
+    if mx is None:
+        me = ctr[0]; ctr[0] += 1
+        if me == site:
+            k = max(mn, target)
+    # does the designated site lie inside one of the alternatives?  then that alternative must be taken once
+    out, base = [], ctr[0]
+    inner = None
+    for i, a in enumerate(alts):
+        n_in = unbounded_sites(a)
+        if base <= site < base + n_in:
+            inner = i
+        base += n_in
+    start = ctr[0]
+    if inner is not None and (mx is None or mx >= 1):
+        c2 = [start + sum(unbounded_sites(a) for a in alts[:inner])]
+        w = pumped(alts[inner], rng, site, target, c2)
+        if not w:
+            w = lang.nonempty_word(alts[inner])
+        if w is None:
+            return None
+        out += w
+        k = max(0, k - 1)
+    ctr[0] = start + sum(unbounded_sites(a) for a in alts)
+    for _ in range(k):
+        a = rng.choice(alts)
+        w = lang.nonempty_word(a)
+        if w is None:
+            return None
+        out += w
+    return out
+
+
+def long_sequences(ri, rn, ctx):
+    """sequences of several hundred children (beyond every small-integer cache, chunk size or recursion shortcut):
+    each unbounded element of the rule pumped in turn, plus one-step mutations at the far end"""
+    s = ri.spec[rn]
+    nsites = unbounded_sites(s)
+    sites = list(range(nsites))
+    if ctx.tier == "quick" and nsites > 3:
+        sites = sorted(ctx.rng.sample(sites, 3))
+    for site in sites:
+        w = pumped(s, ctx.rng, site, 300 if ctx.tier == "quick" else 700, [0])
+        if not w or len(w) < 257:
+            continue
+        yield w
+        yield w + [w[-1]]
+        yield w[:-1]
+        yield w + [FOREIGN]
+        yield [w[-1]] + w
+
+
 def run_one(ri, rn, kids):
     impl.reset()
     elem = ri.elem_for(rn)
@@ -111,6 +191,53 @@ def judge(ri, rn, kids, r):
     return None
 
 
+def views(r, mevs):
+    """(model view, implementation view) on the property's observables"""
+    mff = impl.model_family(mevs[0]) if mevs else "ok"
+    mview = (impl.coarse(mff), "ok" if not mevs else "crash" if any(e.startswith("crash") or e == "diverge" for e in mevs)
+             else "occ" if all(e in impl.OCC_CODES for e in mevs) else "rule")
+    iview = (impl.coarse(r["ff"]), "crash" if r["crash"] else "ok" if not r["codes"]
+             else "occ" if all(c in impl.OCC_CODES for c in r["codes"]) else "rule")
+    return mview, iview
+
+
+class _RI:
+    """rule info for one synthetic rule (what judge() reads)"""
+    def __init__(self, rn, s, mixed):
+        self.spec = {rn: s}
+        self.mixed = {rn} if mixed else set()
+
+
+def run_synth(ctx, ri):
+    """random specs of the class wfTop installed under a reused rule name (the theorems quantify over the class, not the table)"""
+    rng, quick = ctx.rng, ctx.tier == "quick"
+    fails, diffs, reqs, metas = [], [], [], []
+    nspec = 60 if quick else 700
+    for i in range(nspec):
+        sj = synth.gen_spec(rng)
+        s = lang.parse(sj)
+        mixed = bool(ri.mixed) and rng.random() < 0.3
+        rname = rng.choice(sorted(ri.mixed)) if mixed else synth.SYNTH
+        fri = _RI(rname, s, mixed)
+        with synth.installed(sj, rname):
+            for w in synth.sequences(s, rng, quick):
+                r = synth.validate_both(rname, w)
+                case = {"synthetic_spec": sj, "mixed": mixed, "kids": w}
+                what = judge(fri, rname, w, r)
+                if what:
+                    fails.append({"case": case, "what": f"synthetic rule {sj} (mixed={mixed}), children {w}: {what}"})
+                reqs.append({"op": "synth", "spec": sj, "mixed": mixed, "name": r["name"], "kids": w, "cands": []})
+                metas.append((case, r))
+    if ctx.driver:
+        for (case, r), m in zip(metas, ctx.driver.batch(reqs)):
+            if not isinstance(m, dict) or not m.get("wf"):
+                raise AssertionError(f"harness: synthetic spec outside the class or unparsable: {case['synthetic_spec']} -> {m}")
+            mview, iview = views(r, m["evs"])
+            if mview != iview:
+                diffs.append({"case": case, "impl": {"ff": r["ff"], "codes": r["codes"], "crash": r["crash"]}, "model": m["evs"]})
+    return fails, diffs, len(reqs), nspec
+
+
 def run(ctx):
     ri = gen.RuleInfo()
     cases = []
@@ -120,6 +247,10 @@ def run(ctx):
             continue
         for w in sequences(ri, rn, ctx):
             cases.append((rn, w))
+        nlong = 0
+        for w in long_sequences(ri, rn, ctx):
+            cases.append((rn, w)); nlong += 1
+        LONG[rn] = nlong
     results, reqs = [], []
     for rn, w in cases:
         r = run_one(ri, rn, w)
@@ -148,23 +279,26 @@ def run(ctx):
             dist["by_first_family"][r["ff"]] = dist["by_first_family"].get(r["ff"], 0) + 1
         if m is not None:
             mff = impl.model_family(m["evs"][0]) if m["evs"] else "ok"
-            mview = (impl.coarse(mff), "ok" if not m["evs"] else "crash" if any(e.startswith("crash") or e == "diverge" for e in m["evs"])
-                     else "occ" if all(e in impl.OCC_CODES for e in m["evs"]) else "rule")
-            iview = (impl.coarse(r["ff"]), "crash" if r["crash"] else "ok" if not r["codes"]
-                     else "occ" if all(c in impl.OCC_CODES for c in r["codes"]) else "rule")
+            mview, iview = views(r, m["evs"])
             if mview != iview:
                 diffs.append({"case": case, "impl": {"ff": r["ff"], "codes": r["codes"], "crash": r["crash"]}, "model": m["evs"]})
             elif mff != r["ff"] and not r["ff"].startswith("RULE") or sorted(m["evs"]) != sorted(r["codes"]):
                 drift += 1
         if len(samples) < 6 and len(w) >= 3 and (r["ff"] != "ok" or len(samples) % 2 == 0):
             samples.append({"rule": rn, "children": w, "impl_ff": r["ff"], "impl_codes": r["codes"]})
+    sf, sd, sn, nspec = run_synth(ctx, ri)
+    fails += sf; diffs += sd
+    dist["synthetic_specs"] = nspec; dist["synthetic_cases"] = sn
     return {
-        "evaluations": len(cases), "distinct_nontrivial": nontrivial,
+        "evaluations": len(cases) + sn, "distinct_nontrivial": nontrivial,
         "rule": "per rule: the W-method conformance suite over the minimal DFA of the rule's language (complete for validators with up to k extra states; k=0 quick, k=1 thorough; "
                 "'states' = sum of minimal-DFA sizes, 'transitions' = suite words), every sequence over (names of the rule + one foreign name) up to length 4/3/2 (quick) or 6/5/4/3/2 (thorough) "
-                "by alphabet size, plus sampled words of the language and their single mutations (drop, duplicate, replace, insert, swap, reverse); "
-                "each validated in both modes on a parent with valid content and attributes; non-trivial = non-empty sequence; all cases distinct",
+                "by alphabet size, plus sampled words of the language and their single mutations (drop, duplicate, replace, insert, swap, reverse), plus per unbounded element of the rule "
+                "a word in which it is repeated 300 (quick) / 700 (thorough) times and four far-end mutations of it (sequences longer than any small-integer cache); "
+                "plus random specs of the class wfTop (60 quick / 700 thorough) installed in the live rule table under a reused rule name (also under the names of the mixed-content rules) "
+                "with all short sequences and sampled words/mutations each; each validated in both modes on a parent with valid content and attributes; non-trivial = non-empty sequence; all cases distinct",
         "samples": samples, "corr_diffs": diffs, "oracle_fails": fails, "distribution": dist, "drift": drift,
+        "long_sequences": sum(LONG.values()),
         "states": sum(v[0] for v in WSTATS.values()), "transitions": sum(v[1] for v in WSTATS.values()),
     }
 
@@ -174,6 +308,18 @@ def replay(payload, drv):
     c = payload.get("case") or {}
     if "kids" not in c:
         return {"note": "nothing to replay", "payload": payload}
+    if "synthetic_spec" in c:
+        sj, mixed = c["synthetic_spec"], c.get("mixed", False)
+        rname = sorted(ri.mixed)[0] if mixed else synth.SYNTH
+        with synth.installed(sj, rname):
+            r = synth.validate_both(rname, c["kids"])
+        s = lang.parse(sj)
+        out = {"case": c, "implementation": {k: r[k] for k in ("ff", "codes", "crash")},
+               "in_language_strict": lang.in_lang(s, c["kids"], True, mixed), "in_language_lax": lang.in_lang(s, c["kids"], False, mixed),
+               "verdict": judge(_RI(rname, s, mixed), rname, c["kids"], r)}
+        if drv:
+            out["model"] = drv.batch([{"op": "synth", "spec": sj, "mixed": mixed, "name": r["name"], "kids": c["kids"], "cands": []}])[0]
+        return out
     r = run_one(ri, c["rule"], c["kids"])
     out = {"case": c, "implementation": {k: r[k] for k in ("ff", "codes", "crash")},
            "in_language_strict": lang.in_lang(ri.spec[c["rule"]], c["kids"], True, c["rule"] in ri.mixed),
